@@ -135,12 +135,27 @@ def _fields(c):
     return [c.flags, c.body]
 
 
+class _CountingCrc:
+    """Concrete mode: the real CRC32c, with the same call log as the symbolic stand-in."""
+
+    def __init__(self):
+        self.calls = []
+
+    def __call__(self, data):
+        import google_crc32c
+
+        r = google_crc32c.value(bytes(data))
+        self.calls.append((bytes(data), r))
+        return r
+
+
 def h_roundtrip(ctx, kind, n=0, lens=()):
-    crc = None
     if sx.active():
         from sx.shims import CrcUF
 
         crc = CrcUF()
+    else:
+        crc = _CountingCrc()
     sport, dport, tag = ctx.int("sport", 0, U16), ctx.int("dport", 0, U16), ctx.int("vtag", 0, U32)
     chunk = _mk_chunk(ctx, kind, n, tuple(lens))
     with _Patch(sctp, **({"crc32c": crc} if crc else {})):
